@@ -880,6 +880,23 @@ func c13Wide(emit explore.Emit) {
 }
 
 func c13Enumerate(tier string, emit explore.Emit) {
+	// a value larger than the message limit that arrives in CopyData messages each within the limit: every payload
+	// reaches the binary reader, the value is delivered whole (C14's runner)
+	for _, cfg := range c14BigValueConfigs() {
+		cfg := cfg
+		emit(explore.Case{Family: "binary-reader", Size: 5,
+			Desc: func() any {
+				return map[string]any{"message_limit": cfg.limit, "text_value_bytes": cfg.size, "copydata_chunk": cfg.chunk}
+			},
+			Run: func() explore.Result {
+				r := c14BigValue(cfg)
+				r.Outcome = "completed"
+				for i := range r.Violations {
+					r.Violations[i].Clause = "copy-data-mismatch"
+				}
+				return r
+			}})
+	}
 	for _, extended := range []bool{false, true} {
 		for _, end := range []string{"CopyDone", "CopyFail"} {
 			for chunks := 0; chunks <= 2; chunks++ {
